@@ -39,8 +39,8 @@ var mergeSafeIntrinsics = map[string]bool{
 	"errors.New": true, "errors.Is": true, "log.Printf": true, "log.Println": true, "fmt.Printf": true, "fmt.Println": true,
 	"reflect.ValueOf": true, "(reflect.Value).IsNil": true, "(reflect.Value).IsZero": true, "(reflect.Value).Len": true,
 	"(reflect.Value).Index": true, "(reflect.Value).Interface": true,
-	"encoding/json.Marshal": true, "encoding/json.Unmarshal": true,
 	"(*encoding/base64.Encoding).EncodeToString": true, "go.uber.org/multierr.Combine": true,
+	"net/url.Parse": true, "(*net/url.URL).String": true, "(*net/url.URL).IsAbs": true,
 	"H.vStrHas": true, "H.vConcat": true, "H.vDeepEqual": true,
 }
 
@@ -139,6 +139,17 @@ func (x *Explorer) invokeMergeable(m *types.Func) bool {
 	return true
 }
 
+// setRoot replaces the whole value of an object (logged for an enclosing local run).
+func (e *Exec) setRoot(ob *Obj, v Value) {
+	if l := e.local; l != nil && ob.id <= l.entrySeq {
+		if _, ok := l.saved[ob]; !ok {
+			l.saved[ob] = ob.val
+			l.order = append(l.order, ob)
+		}
+	}
+	ob.val = v
+}
+
 func (e *Exec) abandon(why string) {
 	if e.local != nil {
 		panic(mergeAbandon{why: why})
@@ -189,6 +200,12 @@ func (e *Exec) localChoose(kind string, n int, conds []*Term, exhaustive bool) i
 		panic(pathEnd{kind: "infeasible"})
 	}
 	l.prefix = append(l.prefix, decision{choice: c, n: n, checked: true, kind: kind})
+	if e.x.decKinds == nil {
+		e.x.decKinds = map[string]int{}
+	}
+	if e.cur != nil && len(e.cur.stack) > 0 {
+		e.x.decKinds["local:"+kind+"@"+e.cur.stack[len(e.cur.stack)-1].Name()]++
+	}
 	l.depth++
 	e.assume(cond(c))
 	return c
@@ -210,6 +227,7 @@ func (l *localRun) backtrack() bool {
 // callMerged runs fn with local exploration and merging. ok=false: merging was
 // abandoned and nothing was changed; the caller runs the call normally.
 func (e *Exec) callMerged(th *Thread, fn *ssa.Function, free []Value, args []Value) (ret Value, ok bool) {
+	outer := e.local
 	l := &localRun{entrySeq: e.objSeq, entryMap: e.mapSeq}
 	pcLen := len(e.pc)
 	pcChecked := e.pcChecked
@@ -258,10 +276,10 @@ func (e *Exec) callMerged(th *Thread, fn *ssa.Function, free []Value, args []Val
 					}
 				}
 			}()
-			res = e.callClosure(th, fn, free, args)
+			res = e.runBody(th, fn, free, args)
 			return "ok"
 		}()
-		e.local = nil
+		e.local = outer
 		if status == "ok" {
 			eff := map[*Obj]Value{}
 			for _, o := range l.order {
@@ -356,7 +374,7 @@ func (e *Exec) callMerged(th *Thread, fn *ssa.Function, free []Value, args []Val
 		if !mok {
 			panic(pathEnd{kind: "inconclusive", msg: "engine: merge of same-shape heap effects failed in " + fn.String()})
 		}
-		ob.val = mv
+		e.setRoot(ob, mv)
 	}
 	return merged, true
 }
@@ -1085,8 +1103,19 @@ func (m *merger) mergeJSON(ns []*JNode) (*JNode, bool) {
 			if !ok {
 				return nil, false
 			}
-			out.keys = append(out.keys, mk.(*StrV))
-			out.vals = append(out.vals, mv)
+			cs := make([]*Term, len(ns))
+			anyC := false
+			for j, n := range ns {
+				cs[j] = n.cond(i)
+				if !cs[j].IsTrue() {
+					anyC = true
+				}
+			}
+			var mc *Term
+			if anyC {
+				mc = m.iteTerms(cs)
+			}
+			out.addKey(mk.(*StrV), mv, mc)
 		}
 	}
 	return out, true
